@@ -9,6 +9,12 @@ import FP.Model.Enc.KCoverC
 import FP.Model.Enc.KLAEC
 import FP.Model.Enc.KMPEC
 import FP.Model.ParserJson
+import FP.Model.MFD
+import FP.Model.NodeExpandJson
+import FP.Model.TablesJson
+import FP.Model.Enc.KFDCWitness
+import FP.Model.Enc.ErrCheck
+import FP.Model.Width
 /-!
 # FP.Model.Enc.Handlers — the `lp.*` handlers of the encoder modules, for `Driver.lean`
 -/
@@ -17,6 +23,6 @@ open Lean
 
 def encHandlersAll : List (String → Json → Option (Except String Json)) :=
   [handleKLAE, handleKMPE, handleKCover, handleMGS, handleMSC, handleMEF,
-   handleKFDC, handleKCoverC, handleKLAEC, handleKMPEC, FP.Parser.handleParser]
+   handleKFDC, handleKCoverC, handleKLAEC, handleKMPEC, FP.Parser.handleParser, FP.MFD.handleMFD, NX.handleNodeExpand, handleK4, handleKFDCWitness, handleErrCheck, handleWidth]
 
 end FP
